@@ -1057,4 +1057,58 @@ def unit_axis(repo: Repo) -> RuleRun:
 
 unit_axis.rule_id = "C09.UNIT-AXIS"
 
-RULES = [arc_sense, purity, no_alias_store, affine_balance, unit_normal, direction_parts, transform_equals_methods, transform_routing, linear_parts, deep_copy, mirror_matrix, no_shared_parts, arguments_untouched, super_forwarding, inplace_then_read, invalidate_last, live_lengths, private_coordinates, live_arrays, displacement_copied, average_axis, unit_axis]
+def mirror_sense(repo: Repo) -> RuleRun:
+    """A circle curve is parametrised by an angle about its normal, so it has a sense of rotation, and a reflection reverses it: the
+    mirror image of get_point(t) is the point at the SAME parameter only if the mirrored curve turns about -M(normal). CircleCurve
+    keeps its normal as the difference of two points; its mirror() is run over exact rational points and a rational plane, then
+    origin and rim must be the reflected points and the normal must be the reflected normal with the opposite sign (C09.ARC-SENSE
+    for curves: otherwise a clipped circle - an arc - is mirrored to the arc on the other side of its rim point)."""
+    from fractions import Fraction
+
+    from .. import exact
+    from ..peval import NotEvaluable, Obj, Raised
+
+    r = RuleRun(PROP, "C09.MIRROR-SENSE", floor=4, what="CircleCurve.mirror reflects origin and rim and turns the normal into -M(normal), so that equal parameters give mirrored points (exact rational evaluation)")
+    cls = repo.cls("construct.curves.analytic.CircleCurve")
+    mir = repo.find_method(cls, "mirror")
+    point_cls = repo.cls("construct.point.Point")
+    r.require(mir is not None, "CircleCurve.mirror vanished")
+
+    def reflect(p, n, o):
+        nn = sum(x * x for x in n)
+        d = sum((Fraction(a) - Fraction(b)) * c_ for a, b, c_ in zip(p, o, n))
+        return tuple(Fraction(p[i]) - 2 * d * n[i] / nn for i in range(3))
+
+    for n_, o_ in (((2, 3, 6), (0, 0, 0)), ((1, 4, 8), (Fraction(1, 5), 0, -2)), ((0, 0, 5), (0, 0, 1)), ((-4, 4, 7), (3, 1, 0))):
+        origin, rim, normal = (1, 1, Fraction(3, 10)), (2, 1, Fraction(3, 10)), (0, 0, 1)
+        curve = Obj("curve", cls=cls)
+        for nm, pos in (("origin", origin), ("rim", rim), ("atop", tuple(Fraction(a) + b for a, b in zip(origin, normal)))):
+            pt = Obj(nm, cls=point_cls)
+            pt.set("position", exact.vec(*pos))
+            pt.set("projected_to", [])
+            curve.set(nm, pt)
+        curve.set("bounds", (0, 1))
+        try:
+            exact.evaluator(repo, mir.module).call_funcinfo(mir, [curve, exact.vec(*n_), exact.vec(*o_)])
+        except Raised as err:
+            r.bad(mir, f"CircleCurve.mirror raises {err.exc_name} on the exact model", mir.node, key=f"plane:{n_}")
+            continue
+        except NotEvaluable as err:
+            raise AnalysisError(f"CircleCurve.mirror not evaluable over exact rational vectors (normal {n_}): {err}") from err
+        o2, r2, a2 = (curve.get(k).get("position") for k in ("origin", "rim", "atop"))
+        want_o, want_r = exact.vec(*reflect(origin, n_, o_)), exact.vec(*reflect(rim, n_, o_))
+        mn = tuple(a - b for a, b in zip(reflect(tuple(Fraction(a) + b for a, b in zip(origin, normal)), n_, o_), reflect(origin, n_, o_)))  # M(normal)
+        problems = []
+        if not exact.same(o2, want_o) or not exact.same(r2, want_r):
+            problems.append("origin / rim are not the reflected points")
+        got_n = a2 - o2 if isinstance(a2, exact.Vec) and isinstance(o2, exact.Vec) else None
+        if got_n is None or not exact.same(got_n, exact.vec(*[-x for x in mn])):
+            same_sign = got_n is not None and exact.same(got_n, exact.vec(*mn))
+            problems.append("the normal is +M(normal): the reflected curve is traversed the other way round, equal parameters give points on opposite sides of the rim point" if same_sign else "the normal is not -M(normal)")
+        r.check(not problems, mir, f"plane normal {n_}: origin, rim reflected, normal -> -M(normal)", f"CircleCurve.mirror, plane normal {n_} through {tuple(str(x) for x in o_)}: " + "; ".join(problems), mir.node, key=f"plane:{n_}")
+    return r
+
+
+mirror_sense.rule_id = "C09.MIRROR-SENSE"
+
+RULES = [arc_sense, purity, no_alias_store, affine_balance, unit_normal, direction_parts, transform_equals_methods, transform_routing, linear_parts, deep_copy, mirror_matrix, no_shared_parts, arguments_untouched, super_forwarding, inplace_then_read, invalidate_last, live_lengths, private_coordinates, live_arrays, displacement_copied, average_axis, unit_axis, mirror_sense]
